@@ -17,6 +17,8 @@ def plan(tier):
 def main(tier):
     # two-client interleavings with challenge-response flows, judged by the observer (a query carrying the tag of a client that is gone ...)
     from . import c07
-    return pcommon.run_plan('C01', tier, plan(tier), ('C01.',), NEED, pre_cov=lambda run: c07.direct_differential(run, tier, prefixes=('C01.',)))
+    # a timer left behind by a finished client is only ever enabled on a tree that leaves one (event TOO): its handler running on the released request
+    # (a verdict for a client that is gone, or a sanitizer abort while writing one) is this property's violation
+    return pcommon.run_plan('C01', tier, plan(tier), ('C01.',), NEED, crash_is_violation=('TOO',), pre_cov=lambda run: c07.direct_differential(run, tier, prefixes=('C01.',)))
 
 replay = pcommon.replay
